@@ -30,6 +30,15 @@ def Post (env : Env) (scr : Screen) (c : Conn) : Prop :=
 
 def Inv (env : Env) (scr : Screen) (c : Conn) : Prop := Post env scr c ∨ Pre c
 
+/-- What the theorems assume of the handler functions of application-registered security handlers
+(application code): invoked on a connection in state SECURITY_TYPE that has not been admitted, they
+do not admit it by themselves (no SecurityResult-OK, no ServerInit, no state beyond AUTHENTICATION,
+viewOnly untouched), and they do not forge the recorded response.  The handler of the harness
+(`appClose`: writes a marker, closes) satisfies it (`appOk_appClose`); the TightVNC extension's
+handler is NOT covered by this assumption but modelled explicitly (`tightHandler`). -/
+def AppOk (env : Env) : Prop :=
+  ∀ t c, (Pre c → c.st = .sec → Pre (env.app t c)) ∧ (env.app t c).resp = c.resp
+
 theorem builtinType_needsAuth {scr : Screen} {c : Conn} (h : NeedsAuth scr c) :
     builtinType scr c = secVncAuth := by
   obtain ⟨h1, h2⟩ := h
@@ -60,7 +69,7 @@ theorem sendChallenge_same (rand : List UInt8) (c : Conn) : Same c (sendChalleng
 
 theorem processClientInit_same (c : Conn) : Same c (processClientInit c) := by
   unfold processClientInit
-  by_cases h : c.peerClosed <;> simp [h, Same, close, wr]
+  by_cases h : c.peerClosed <;> by_cases ht : c.tight <;> simp [h, ht, Same, close, wr]
 
 theorem vncAuthNoneTail_same (c : Conn) : Same c (vncAuthNoneTail c) := by
   unfold vncAuthNoneTail
@@ -92,12 +101,12 @@ theorem sendSecurityType_same (rand : List UInt8) (c : Conn) (t : Nat) :
       refine Same.trans ?_ (sendChallenge_same _ _)
       simp [Same, wr]
 
-theorem sendSecurityTypeList_same (hs : List Nat) (c : Conn) (t : Nat) :
-    Same c (sendSecurityTypeList hs c t).1 := by
+theorem sendSecurityTypeList_same (fixed : Bool) (hs : List Handler) (legacy : List Nat) (c : Conn)
+    (t : Nat) : Same c (sendSecurityTypeList fixed hs legacy c t).1 := by
   unfold sendSecurityTypeList
   by_cases h : c.peerClosed
   · simp [h, Same, close]
-  · rw [if_neg h]
+  · simp only [if_neg h]
     split
     · refine Same.trans ?_ (sendString_same _ _)
       simp [Same, wr]
@@ -126,16 +135,61 @@ theorem processAuth_same (env : Env) (scr : Screen) (c : Conn) (r : List UInt8) 
   · refine Same.trans ?_ (authOk_same _ _)
     simp [Same]
 
-theorem processSecurityType_same (fixed : Bool) (scr : Screen) (hs : List Nat) (rand : List UInt8)
-    (c : Conn) (t : UInt8) : Same c (processSecurityType fixed scr hs rand c t) := by
+theorem tightNoAuth_same (c : Conn) : Same c (tightNoAuth c) := by
+  unfold tightNoAuth
+  by_cases h : c.minor > 7 <;> simp [h, Same, wr]
+
+theorem tightAuth_same (env : Env) (scr : Screen) (rand : List UInt8) (c : Conn) :
+    Same c (tightAuth env scr rand c) := by
+  unfold tightAuth
+  simp only
+  split
+  · simp [Same, close, wr]
+  · split
+    · simp [Same, close, wr]
+    · split
+      · simp [Same, close, wr]
+      · refine Same.trans ?_ (processAuth_same _ _ _ _)
+        simp [Same, wr]
+
+theorem tightHandler_same (env : Env) (scr : Screen) (rand : List UInt8) (c : Conn) :
+    Same c (tightHandler env scr rand c) := by
+  unfold tightHandler
+  simp only
+  split
+  · simp [Same, close]
+  · split
+    · refine Same.trans ?_ (tightAuth_same _ _ _ _)
+      simp [Same, wr]
+    · refine Same.trans ?_ (tightNoAuth_same _)
+      simp [Same, wr]
+
+theorem runRegistered_same (env : Env) (scr : Screen) (rand : List UInt8) (c : Conn) (h : Handler) :
+    Same c (runRegistered env scr rand c h) := by
+  cases h with
+  | tight => exact tightHandler_same env scr rand c
+  | app t => simp [runRegistered, appRun, Same]
+
+theorem processSecurityType_same (fixed : Bool) (env : Env) (scr : Screen) (hs : List Handler)
+    (legacy : List Nat) (rand : List UInt8) (c : Conn) (t : UInt8) :
+    Same c (processSecurityType fixed env scr hs legacy rand c t) := by
   have h1 := vncAuthNone_same c
   have h2 := sendChallenge_same rand c
   have h3 : Same c (close c) := by simp [Same, close]
   unfold processSecurityType runHandler
-  split <;> split <;> (try split) <;> assumption
+  split
+  · split
+    · split <;> assumption
+    · split
+      · exact runRegistered_same _ _ _ _ _
+      · exact h3
+  · split
+    · split <;> assumption
+    · exact h3
 
-theorem processVersion_same (env : Env) (scr : Screen) (hs : List Nat) (rand : List UInt8)
-    (c : Conn) (pv : List UInt8) : Same c (processVersion env scr hs rand c pv).1 := by
+theorem processVersion_same (fixed : Bool) (env : Env) (scr : Screen) (hs : List Handler)
+    (legacy : List Nat) (rand : List UInt8) (c : Conn) (pv : List UInt8) :
+    Same c (processVersion fixed env scr hs legacy rand c pv).1 := by
   unfold processVersion
   split
   · simp [close, Same]
@@ -148,21 +202,22 @@ theorem processVersion_same (env : Env) (scr : Screen) (hs : List Nat) (rand : L
       split
       · refine Same.trans ?_ (sendSecurityType_same _ _ _)
         simp [Same]
-      · refine Same.trans ?_ (sendSecurityTypeList_same _ _ _)
+      · refine Same.trans ?_ (sendSecurityTypeList_same _ _ _ _ _)
         simp [Same]
 
-theorem dispatch_same (fixed : Bool) (env : Env) (scr : Screen) (hs : List Nat) (rand : List UInt8)
-    (st : St) (c : Conn) (msg : List UInt8) : Same c (dispatch fixed env scr hs rand st c msg).1 := by
+theorem dispatch_same (fixed : Bool) (env : Env) (scr : Screen) (hs : List Handler) (legacy : List Nat)
+    (rand : List UInt8) (st : St) (c : Conn) (msg : List UInt8) :
+    Same c (dispatch fixed env scr hs legacy rand st c msg).1 := by
   cases st <;> simp only [dispatch]
-  · exact processVersion_same _ _ _ _ _ _
-  · exact processSecurityType_same _ _ _ _ _ _
+  · exact processVersion_same _ _ _ _ _ _ _ _
+  · exact processSecurityType_same _ _ _ _ _ _ _ _
   · exact processAuth_same _ _ _ _
   · exact processClientInit_same _
   · exact processClientInit_same _
   · exact Same.rfl' c
 
-theorem procConn_same (fixed : Bool) (env : Env) (scr : Screen) (hs : List Nat) (rand : List UInt8)
-    (c : Conn) : Same c (procConn fixed env scr hs rand c).1 := by
+theorem procConn_same (fixed : Bool) (env : Env) (scr : Screen) (hs : List Handler) (legacy : List Nat)
+    (rand : List UInt8) (c : Conn) : Same c (procConn fixed env scr hs legacy rand c).1 := by
   unfold procConn
   by_cases h1 : (!c.isOpen) = true
   · simp [h1, Same]
@@ -173,7 +228,7 @@ theorem procConn_same (fixed : Bool) (env : Env) (scr : Screen) (hs : List Nat) 
       by_cases h3 : c.inbuf.length < need c.st
       · simp [h3, close, Same]
       · rw [if_neg h3]
-        refine Same.trans ?_ (dispatch_same _ _ _ _ _ _ _ _)
+        refine Same.trans ?_ (dispatch_same _ _ _ _ _ _ _ _ _)
         simp [Same]
 
 /-! ### the invariant is preserved by one call of rfbProcessClientMessage (fixed code) -/
@@ -203,6 +258,25 @@ theorem sendString_pre {c : Conn} (s : List UInt8) (h : Pre c) : Pre (sendString
     exact ⟨⟨by simp [close, wr, h1], by simp [close, wr, h1']⟩, by simp [close, wr, h2],
       by simpa [close, wr] using h3, by simp [close]⟩
 
+theorem appClose_pre {c : Conn} (h : Pre c) : Pre (appClose c) := by
+  unfold appClose
+  obtain ⟨⟨h1, h1'⟩, h2, h3, _⟩ := h
+  by_cases hp : c.peerClosed
+  · simp only [hp, if_true]
+    exact ⟨⟨h1, h1'⟩, h2, h3, by simp [close]⟩
+  · simp only [hp]
+    exact ⟨⟨by simp [close, wr, h1], by simp [close, wr, h1']⟩, by simp [close, wr, h2],
+      by simpa [close, wr] using h3, by simp [close]⟩
+
+/-- the application handler of the harness meets the assumption -/
+theorem appOk_appClose (enc : List UInt8 → List UInt8 → List UInt8) (decFile : List UInt8 → Option (List UInt8))
+    (parseVer : List UInt8 → Option (Int × Int)) :
+    AppOk { enc := enc, decFile := decFile, parseVer := parseVer, app := fun _ c => appClose c } := by
+  intro t c
+  refine ⟨fun h _ => appClose_pre h, ?_⟩
+  simp only [appClose]
+  by_cases hp : c.peerClosed <;> simp [hp, close, wr]
+
 theorem sendSecurityType_pre (rand : List UInt8) {d : Conn} (hc : Clean d) (hv : d.viewOnly = false)
     (hst : d.st = .ver) : Pre (sendSecurityType rand d secVncAuth) := by
   unfold sendSecurityType
@@ -213,23 +287,25 @@ theorem sendSecurityType_pre (rand : List UInt8) {d : Conn} (hc : Clean d) (hv :
     exact sendChallenge_pre rand ⟨by simp [wr, hc.1], by simp [wr, hc.2]⟩ (by simp [wr, hv])
       (by simp [wr, hst])
 
-theorem sendSecurityTypeList_pre (hs : List Nat) (t : Nat) {d : Conn} (hc : Clean d)
-    (hv : d.viewOnly = false) (hst : d.st = .ver) : Pre (sendSecurityTypeList hs d t).1 := by
+theorem sendSecurityTypeList_pre (fixed : Bool) (hs : List Handler) (legacy : List Nat) (t : Nat)
+    {d : Conn} (hc : Clean d) (hv : d.viewOnly = false) (hst : d.st = .ver) :
+    Pre (sendSecurityTypeList fixed hs legacy d t).1 := by
   unfold sendSecurityTypeList
   by_cases hp : d.peerClosed
-  · rw [if_pos hp]
+  · simp only [if_pos hp]
     exact ⟨hc, hv, by simp [close, hst], by simp [close]⟩
-  · rw [if_neg hp]
-    by_cases hl : offered hs t = []
+  · simp only [if_neg hp]
+    by_cases hl : offered fixed hs legacy t = []
     · rw [if_pos hl]
       exact sendString_pre _ ⟨⟨by simp [wr, hc.1], by simp [wr, hc.2]⟩, by simp [wr, hv],
         by simp [wr, hst], by simp [wr, hst]⟩
     · rw [if_neg hl]
       exact ⟨⟨by simp [wr, hc.1], by simp [wr, hc.2]⟩, by simp [wr, hv], by simp, by simp⟩
 
-theorem processVersion_pre (env : Env) (scr : Screen) (hs : List Nat) (rand : List UInt8) {c : Conn}
+theorem processVersion_pre (fixed : Bool) (env : Env) (scr : Screen) (hs : List Handler)
+    (legacy : List Nat) (rand : List UInt8) {c : Conn}
     (pv : List UInt8) (hn : NeedsAuth scr c) (h : Pre c) (hst : c.st = .ver) :
-    Pre (processVersion env scr hs rand c pv).1 := by
+    Pre (processVersion fixed env scr hs legacy rand c pv).1 := by
   unfold processVersion
   split
   · exact pre_close h
@@ -244,35 +320,23 @@ theorem processVersion_pre (env : Env) (scr : Screen) (hs : List Nat) (rand : Li
       simp only [hb]
       split
       · exact sendSecurityType_pre rand (d := { c with minor := minor }) hc hv hst
-      · exact sendSecurityTypeList_pre hs _ (d := { c with minor := minor }) hc hv hst
+      · exact sendSecurityTypeList_pre fixed hs legacy _ (d := { c with minor := minor }) hc hv hst
 
-theorem processSecurityType_pre (scr : Screen) (hs : List Nat) (rand : List UInt8) {c : Conn}
-    (t : UInt8) (hn : NeedsAuth scr c) (h : Pre c) (hst : c.st = .sec) :
-    Pre (processSecurityType true scr hs rand c t) := by
-  unfold processSecurityType
-  simp only [if_true, builtinType_needsAuth hn]
-  split
-  · rename_i ht
-    unfold runHandler
-    rw [ht]
-    simp only [secVncAuth_ne_secNone, if_false]
-    exact sendChallenge_pre rand h.1 h.2.1 (Or.inr hst)
-  · exact pre_close h
-
-theorem authFail_pre {d : Conn} (hc : Clean d) (hv : d.viewOnly = false) (hst : d.st = .auth)
+theorem authFail_pre {d : Conn} (hc : Clean d) (hv : d.viewOnly = false)
+    (hst : d.st = .ver ∨ d.st = .sec ∨ d.st = .auth)
     (hch : Msg.challenge d.challenge ∈ d.sent) : Pre (authFail d) := by
   unfold authFail
   by_cases hp : d.peerClosed
   · rw [if_pos hp]
-    exact ⟨hc, hv, by simp [close, hst], by simp [close]⟩
+    exact ⟨hc, hv, by simpa [close] using hst, by simp [close]⟩
   · rw [if_neg hp]
     by_cases hm : d.minor > 7
     · rw [if_pos hm]
       exact sendString_pre _ ⟨⟨by simp [wr, hc.1], by simp [wr, hc.2]⟩, by simp [wr, hv],
-        by simp [wr, hst], by simp [wr, hch]⟩
+        by simpa [wr] using hst, by simp [wr, hch]⟩
     · rw [if_neg hm]
       exact ⟨⟨by simp [wr, close, hc.1], by simp [wr, close, hc.2]⟩, by simp [wr, close, hv],
-        by simp [wr, close, hst], by simp [close]⟩
+        by simpa [wr, close] using hst, by simp [close]⟩
 
 theorem authOk_post (env : Env) (scr : Screen) {d : Conn} (r : List UInt8) (vo : Bool)
     (hr : d.resp = some r) (hv : d.viewOnly = false) (hch : Msg.challenge d.challenge ∈ d.sent)
@@ -286,10 +350,11 @@ theorem authOk_post (env : Env) (scr : Screen) {d : Conn} (r : List UInt8) (vo :
     exact ⟨⟨r, vo, by simpa [wr] using hr, by simp [wr, hch], by simpa [wr] using hchk, by simp [wr, hv]⟩,
       by simp⟩
 
-theorem processAuth_inv (env : Env) (scr : Screen) {c : Conn} (r : List UInt8) (h : Pre c)
-    (hst : c.st = .auth) (ho : c.isOpen = true) : Inv env scr (processAuth env scr c r) := by
-  obtain ⟨hc, hv, _, hch⟩ := h
-  have hch := hch hst ho
+/-- rfbAuthProcessClientMessage on a connection that has not been admitted and whose current challenge
+was written to it: either the check passes (proved) or the connection is closed, not admitted -/
+theorem processAuth_inv' (env : Env) (scr : Screen) {c : Conn} (r : List UInt8) (hc : Clean c)
+    (hv : c.viewOnly = false) (hst : c.st = .ver ∨ c.st = .sec ∨ c.st = .auth)
+    (hch : Msg.challenge c.challenge ∈ c.sent) : Inv env scr (processAuth env scr c r) := by
   unfold processAuth
   split
   · right
@@ -297,6 +362,70 @@ theorem processAuth_inv (env : Env) (scr : Screen) {c : Conn} (r : List UInt8) (
   · rename_i vo hchk
     left
     exact authOk_post env scr (d := { c with resp := some r }) r vo rfl hv hch hchk
+
+theorem processAuth_inv (env : Env) (scr : Screen) {c : Conn} (r : List UInt8) (h : Pre c)
+    (hst : c.st = .auth) (ho : c.isOpen = true) : Inv env scr (processAuth env scr c r) := by
+  obtain ⟨hc, hv, hst', hch⟩ := h
+  exact processAuth_inv' env scr r hc hv hst' (hch hst ho)
+
+/-- the TightVNC negotiation on a connection that has to authenticate -/
+theorem tightAuth_inv (env : Env) (scr : Screen) (rand : List UInt8) {d : Conn} (hc : Clean d)
+    (hv : d.viewOnly = false) (hst : d.st = .sec) : Inv env scr (tightAuth env scr rand d) := by
+  unfold tightAuth
+  simp only
+  have hc1 : Clean (wr d (.tightAuthCaps 1)) := ⟨by simp [wr, hc.1], by simp [wr, hc.2]⟩
+  split
+  · right
+    exact ⟨hc1, by simp [close, wr, hv], by simp [close, wr, hst], by simp [close]⟩
+  · split
+    · right
+      exact ⟨hc1, by simp [close, wr, hv], by simp [close, wr, hst], by simp [close]⟩
+    · split
+      · right
+        exact ⟨⟨by simp [close, wr, hc.1], by simp [close, wr, hc.2]⟩, by simp [close, wr, hv],
+          by simp [close, wr, hst], by simp [close]⟩
+      · apply processAuth_inv'
+        · exact ⟨by simp [wr, hc.1], by simp [wr, hc.2]⟩
+        · simp [wr, hv]
+        · simp [wr, hst]
+        · simp [wr]
+
+theorem tightHandler_inv (env : Env) (scr : Screen) (rand : List UInt8) {c : Conn}
+    (hn : NeedsAuth scr c) (h : Pre c) (hst : c.st = .sec) :
+    Inv env scr (tightHandler env scr rand c) := by
+  obtain ⟨hc, hv, _, _⟩ := h
+  unfold tightHandler
+  simp only
+  split
+  · right
+    exact ⟨hc, by simp [close, hv], by simp [close, hst], by simp [close]⟩
+  · rw [if_pos ⟨hn.1, hn.2⟩]
+    exact tightAuth_inv env scr rand (d := wr { c with tight := true } .tightTunnelCaps)
+      ⟨by simp [wr, hc.1], by simp [wr, hc.2]⟩ (by simp [wr, hv]) (by simp [wr, hst])
+
+theorem processSecurityType_inv (env : Env) (happ : AppOk env) (scr : Screen) (hs : List Handler)
+    (legacy : List Nat) (rand : List UInt8) {c : Conn}
+    (t : UInt8) (hn : NeedsAuth scr c) (h : Pre c) (hst : c.st = .sec) :
+    Inv env scr (processSecurityType true env scr hs legacy rand c t) := by
+  unfold processSecurityType
+  simp only [if_true, builtinType_needsAuth hn]
+  split
+  · rename_i ht
+    right
+    unfold runHandler
+    rw [ht]
+    simp only [secVncAuth_ne_secNone, if_false]
+    exact sendChallenge_pre rand h.1 h.2.1 (Or.inr hst)
+  · split
+    · rename_i hd _
+      cases hd with
+      | tight => exact tightHandler_inv env scr rand hn h hst
+      | app k =>
+        right
+        have := (happ k c).1 h hst
+        obtain ⟨p1, p2, p3, p4⟩ := this
+        exact ⟨p1, p2, p3, p4⟩
+    · right; exact pre_close h
 
 theorem processClientInit_post (env : Env) (scr : Screen) {c : Conn} (h : Proved env scr c) :
     Post env scr (processClientInit c) := by
@@ -309,12 +438,16 @@ theorem processClientInit_post (env : Env) (scr : Screen) {c : Conn} (h : Proved
       by simpa [close] using h4⟩, by simp [close]⟩
   · have hp' : ¬ ({ c with st := St.init } : Conn).peerClosed = true := hp
     rw [if_neg hp']
-    exact ⟨⟨r, vo, by simpa [wr] using h1, by simp [wr, h2], by simpa [wr] using h3,
-      by simpa [wr] using h4⟩, by simp⟩
+    split
+    · exact ⟨⟨r, vo, by simpa [wr] using h1, by simp [wr, h2], by simpa [wr] using h3,
+        by simpa [wr] using h4⟩, by simp⟩
+    · exact ⟨⟨r, vo, by simpa [wr] using h1, by simp [wr, h2], by simpa [wr] using h3,
+        by simpa [wr] using h4⟩, by simp⟩
 
-theorem dispatch_inv (env : Env) (scr : Screen) (hs : List Nat) (rand : List UInt8) {d : Conn}
+theorem dispatch_inv (env : Env) (happ : AppOk env) (scr : Screen) (hs : List Handler)
+    (legacy : List Nat) (rand : List UInt8) {d : Conn}
     (msg : List UInt8) (hn : NeedsAuth scr d) (h : Inv env scr d) (ho : d.isOpen = true)
-    (h2 : d.st ≠ .normal) : Inv env scr (dispatch true env scr hs rand d.st d msg).1 := by
+    (h2 : d.st ≠ .normal) : Inv env scr (dispatch true env scr hs legacy rand d.st d msg).1 := by
   rcases h with ⟨hp, hst⟩ | hp
   · rcases hst ho with hst | hst
     · rw [hst]; simp only [dispatch]
@@ -324,16 +457,19 @@ theorem dispatch_inv (env : Env) (scr : Screen) (hs : List Nat) (rand : List UIn
     obtain ⟨_, _, hst, _⟩ := hp
     rcases hst with hst | hst | hst
     · rw [hst]; simp only [dispatch]
-      right; exact processVersion_pre env scr hs rand _ hn hp' hst
+      right; exact processVersion_pre true env scr hs legacy rand _ hn hp' hst
     · rw [hst]; simp only [dispatch]
-      right; exact processSecurityType_pre scr hs rand _ hn hp' hst
+      exact processSecurityType_inv env happ scr hs legacy rand _ hn hp' hst
     · rw [hst]; simp only [dispatch]
       exact processAuth_inv env scr _ hp' hst ho
 
-/-- **the step lemma**: whatever the process-global handler list and random source are, one call of
-rfbProcessClientMessage keeps the invariant of a connection that has to authenticate -/
-theorem procConn_inv (env : Env) (scr : Screen) (hs : List Nat) (rand : List UInt8) {c : Conn}
-    (hn : NeedsAuth scr c) (h : Inv env scr c) : Inv env scr (procConn true env scr hs rand c).1 := by
+/-- **the step lemma**: whatever the registered handlers, the process-global state and the random
+source are, one call of rfbProcessClientMessage keeps the invariant of a connection that has to
+authenticate -/
+theorem procConn_inv (env : Env) (happ : AppOk env) (scr : Screen) (hs : List Handler)
+    (legacy : List Nat) (rand : List UInt8) {c : Conn}
+    (hn : NeedsAuth scr c) (h : Inv env scr c) :
+    Inv env scr (procConn true env scr hs legacy rand c).1 := by
   unfold procConn
   by_cases h1 : (!c.isOpen) = true
   · simpa [h1] using h
@@ -348,8 +484,8 @@ theorem procConn_inv (env : Env) (scr : Screen) (hs : List Nat) (rand : List UIn
         · left; exact ⟨hp, by simp [close]⟩
         · right; exact pre_close hp
       · rw [if_neg h3]
-        exact dispatch_inv env scr hs rand (d := { c with inbuf := c.inbuf.drop (need c.st) }) _
-          hn h ho h2
+        exact dispatch_inv env happ scr hs legacy rand
+          (d := { c with inbuf := c.inbuf.drop (need c.st) }) _ hn h ho h2
 
 /-! ### the recorded response is only ever set from the connection's own input -/
 
@@ -363,7 +499,7 @@ theorem sendChallenge_resp (rand : List UInt8) (c : Conn) : (sendChallenge rand 
 
 theorem processClientInit_resp (c : Conn) : (processClientInit c).resp = c.resp := by
   unfold processClientInit
-  by_cases h : c.peerClosed <;> simp [h, close, wr]
+  by_cases h : c.peerClosed <;> by_cases ht : c.tight <;> simp [h, ht, close, wr]
 
 theorem vncAuthNoneTail_resp (c : Conn) : (vncAuthNoneTail c).resp = c.resp := by
   unfold vncAuthNoneTail
@@ -388,38 +524,15 @@ theorem sendSecurityType_resp (rand : List UInt8) (c : Conn) (t : Nat) :
     · rw [if_neg h, if_pos ht]; rfl
     · rw [if_neg h, if_neg ht, sendChallenge_resp]; rfl
 
-theorem sendSecurityTypeList_resp (hs : List Nat) (c : Conn) (t : Nat) :
-    (sendSecurityTypeList hs c t).1.resp = c.resp := by
+theorem sendSecurityTypeList_resp (fixed : Bool) (hs : List Handler) (legacy : List Nat) (c : Conn)
+    (t : Nat) : (sendSecurityTypeList fixed hs legacy c t).1.resp = c.resp := by
   unfold sendSecurityTypeList
   by_cases h : c.peerClosed
-  · rw [if_pos h]; rfl
-  · rw [if_neg h]
+  · simp only [if_pos h]; rfl
+  · simp only [if_neg h]
     split
     · simp only [sendString_resp]; rfl
     · rfl
-
-theorem processSecurityType_resp (fixed : Bool) (scr : Screen) (hs : List Nat) (rand : List UInt8)
-    (c : Conn) (t : UInt8) : (processSecurityType fixed scr hs rand c t).resp = c.resp := by
-  have h1 := vncAuthNone_resp c
-  have h2 := sendChallenge_resp rand c
-  have h3 : (close c).resp = c.resp := rfl
-  unfold processSecurityType runHandler
-  split <;> split <;> (try split) <;> assumption
-
-theorem processVersion_resp (env : Env) (scr : Screen) (hs : List Nat) (rand : List UInt8)
-    (c : Conn) (pv : List UInt8) : (processVersion env scr hs rand c pv).1.resp = c.resp := by
-  unfold processVersion
-  split
-  · rfl
-  · rename_i major minor _
-    by_cases hm : major ≠ 3
-    · rw [if_pos hm]; rfl
-    · rw [if_neg hm]
-      unfold authNewClient
-      simp only
-      split
-      · rw [sendSecurityType_resp]
-      · rw [sendSecurityTypeList_resp]
 
 theorem authFail_resp (c : Conn) : (authFail c).resp = c.resp := by
   unfold authFail
@@ -441,11 +554,99 @@ theorem processAuth_resp (env : Env) (scr : Screen) (c : Conn) (r : List UInt8) 
   · rw [authFail_resp]
   · rw [authOk_resp]
 
-theorem procConn_resp (fixed : Bool) (env : Env) (scr : Screen) (hs : List Nat) (rand : List UInt8)
-    (c : Conn) :
-    (procConn fixed env scr hs rand c).1.resp = c.resp ∨
-    (c.st = .auth ∧ c.isOpen = true ∧
-      (procConn fixed env scr hs rand c).1.resp = some (c.inbuf.take 16)) := by
+theorem tightNoAuth_resp (c : Conn) : (tightNoAuth c).resp = c.resp := by
+  unfold tightNoAuth
+  by_cases h : c.minor > 7 <;> simp [h, wr]
+
+/-- the TightVNC negotiation records as response bytes 4..19 of the input that follows the type byte -/
+theorem tightAuth_resp (env : Env) (scr : Screen) (rand : List UInt8) (c : Conn) :
+    (tightAuth env scr rand c).resp = c.resp ∨
+    (tightAuth env scr rand c).resp = some ((c.inbuf.drop 4).take Gen.C05.CHALLENGESIZE) := by
+  unfold tightAuth
+  simp only
+  split
+  · left; rfl
+  · split
+    · left; rfl
+    · split
+      · left; rfl
+      · right
+        rw [processAuth_resp]
+        rfl
+
+theorem tightHandler_resp (env : Env) (scr : Screen) (rand : List UInt8) (c : Conn) :
+    (tightHandler env scr rand c).resp = c.resp ∨
+    (tightHandler env scr rand c).resp = some ((c.inbuf.drop 4).take Gen.C05.CHALLENGESIZE) := by
+  unfold tightHandler
+  simp only
+  split
+  · left; rfl
+  · split
+    · exact tightAuth_resp env scr rand _
+    · left; rw [tightNoAuth_resp]; rfl
+
+theorem processSecurityType_resp (fixed : Bool) (env : Env) (happ : AppOk env) (scr : Screen)
+    (hs : List Handler) (legacy : List Nat) (rand : List UInt8) (c : Conn) (t : UInt8) :
+    (processSecurityType fixed env scr hs legacy rand c t).resp = c.resp ∨
+    (processSecurityType fixed env scr hs legacy rand c t).resp =
+      some ((c.inbuf.drop 4).take Gen.C05.CHALLENGESIZE) := by
+  have h1 := vncAuthNone_resp c
+  have h2 := sendChallenge_resp rand c
+  have h3 : (close c).resp = c.resp := rfl
+  unfold processSecurityType runHandler
+  split
+  · split
+    · split <;> (left; assumption)
+    · split
+      · rename_i hd _
+        cases hd with
+        | tight => exact tightHandler_resp env scr rand c
+        | app k => left; simp only [runRegistered, appRun]; exact (happ k c).2
+      · left; exact h3
+  · split
+    · split <;> (left; assumption)
+    · left; exact h3
+
+theorem processVersion_resp (fixed : Bool) (env : Env) (scr : Screen) (hs : List Handler)
+    (legacy : List Nat) (rand : List UInt8) (c : Conn) (pv : List UInt8) :
+    (processVersion fixed env scr hs legacy rand c pv).1.resp = c.resp := by
+  unfold processVersion
+  split
+  · rfl
+  · rename_i major minor _
+    by_cases hm : major ≠ 3
+    · rw [if_pos hm]; rfl
+    · rw [if_neg hm]
+      unfold authNewClient
+      simp only
+      split
+      · rw [sendSecurityType_resp]
+      · rw [sendSecurityTypeList_resp]
+
+theorem dispatch_resp (fixed : Bool) (env : Env) (happ : AppOk env) (scr : Screen) (hs : List Handler)
+    (legacy : List Nat) (rand : List UInt8) (st : St) (d : Conn) (msg : List UInt8) :
+    (dispatch fixed env scr hs legacy rand st d msg).1.resp = d.resp ∨
+    (dispatch fixed env scr hs legacy rand st d msg).1.resp =
+      some ((d.inbuf.drop 4).take Gen.C05.CHALLENGESIZE) ∨
+    (st = .auth ∧ (dispatch fixed env scr hs legacy rand st d msg).1.resp = some msg) := by
+  cases st <;> simp only [dispatch]
+  · left; rw [processVersion_resp]
+  · rcases processSecurityType_resp fixed env happ scr hs legacy rand d (msg.headD 0) with h | h
+    · left; exact h
+    · right; left; exact h
+  · right; right; exact ⟨trivial, processAuth_resp _ _ _ _⟩
+  · left; rw [processClientInit_resp]
+  · left; rw [processClientInit_resp]
+  · left; trivial
+
+/-- one call of rfbProcessClientMessage changes the recorded response only to 16 bytes of this
+connection's own pending input (at offset 0 in state AUTHENTICATION, at offset 5 — after the type
+byte and the 32-bit auth type — in the TightVNC negotiation) -/
+theorem procConn_resp (fixed : Bool) (env : Env) (happ : AppOk env) (scr : Screen) (hs : List Handler)
+    (legacy : List Nat) (rand : List UInt8) (c : Conn) :
+    (procConn fixed env scr hs legacy rand c).1.resp = c.resp ∨
+    (c.isOpen = true ∧ ∃ k, (procConn fixed env scr hs legacy rand c).1.resp =
+      some ((c.inbuf.drop k).take Gen.C05.CHALLENGESIZE)) := by
   unfold procConn
   by_cases h1 : (!c.isOpen) = true
   · left; rw [if_pos h1]
@@ -457,15 +658,16 @@ theorem procConn_resp (fixed : Bool) (env : Env) (scr : Screen) (hs : List Nat) 
       by_cases h3 : c.inbuf.length < need c.st
       · left; rw [if_pos h3]; rfl
       · rw [if_neg h3]
-        cases hst : c.st <;> simp only [dispatch]
-        · left; rw [processVersion_resp]
-        · left; rw [processSecurityType_resp]
+        rcases dispatch_resp fixed env happ scr hs legacy rand c.st
+          { c with inbuf := c.inbuf.drop (need c.st) } (c.inbuf.take (need c.st)) with h | h | ⟨hst, h⟩
+        · left; exact h
         · right
-          refine ⟨trivial, ho, ?_⟩
-          rw [processAuth_resp]
+          refine ⟨ho, need c.st + 4, ?_⟩
+          rw [h]
+          simp only [List.drop_drop]
+        · right
+          refine ⟨ho, 0, ?_⟩
+          rw [h, hst]
           rfl
-        · left; rw [processClientInit_resp]
-        · left; rw [processClientInit_resp]
-        · left; trivial
 
 end VncModel.Auth
